@@ -620,7 +620,9 @@ func SchemaToJSON(s *ast.Schema) SchemaJSON {
 		}
 		if d.Kind == ast.Interface || d.Kind == ast.Union {
 			for _, p := range s.GetPossibleTypes(d) {
-				t.Possible = append(t.Possible, p.Name)
+				if p.Kind == ast.Object { // gqlparser also lists the interfaces that implement an interface
+					t.Possible = append(t.Possible, p.Name)
+				}
 			}
 			sort.Strings(t.Possible)
 		}
